@@ -387,6 +387,7 @@ func untrustedAddr(k int) string { return fmt.Sprintf("[::ffff:10.1.0.%d]:8333",
 func newTxRun(c *Ctx, sc *txScenario, ns *NodeSim) *txRun {
 	tr := &txRun{c: c, ns: ns, sc: sc, minedAt: map[int]time.Duration{}, mined: map[int]*WBlock{}}
 	ns.S.PreemptDen = sc.preemptDen
+	maybeStalls(c, ns.S, 2, 10, 50)
 	ns.Cfg.SafeTxDelay = sc.safeDelay
 	ns.Cfg.UntrustedCount = sc.untrusted
 	ns.Cfg.RequestMempool = sc.reqMempool
